@@ -219,7 +219,15 @@ func (x *Exec) absorb(w *World) {
 
 // gcBarrier forces finalizers of everything a run dropped to run now, so that
 // a finalizer panic (kv.Open's "dirty tree" check) is attributed to this run.
+var FinalizerStuck bool
+
 func gcBarrier() {
+	if FinalizerStuck {
+		// a finalizer of an abandoned (panicked) connection blocks the finalizer
+		// goroutine for good; the worker restarts the process after such a run
+		runtime.GC()
+		return
+	}
 	done := make(chan struct{})
 	type sentinel struct{ p *int }
 	s := &sentinel{new(int)}
@@ -236,6 +244,7 @@ func gcBarrier() {
 		case <-time.After(2 * time.Millisecond):
 		}
 	}
+	FinalizerStuck = true
 }
 
 // Execute runs one program to completion and returns its result.
